@@ -203,7 +203,10 @@ def main(tier):
             ck.ok("R-C19-4", key, sample={"options": key, "classes": {k: v[1] for k, v in got.items()}} if (geo, prob, al, be) == (1, 2, 3, 1) else None)
     # ---------------- R-C19-5 source terms
     rnd = random.Random(1234)
-    vals = {"Rmax": mp.mpf("1.3"), "p_kappa_eps": mp.mpf("0.3"), "p_delta_e": mp.mpf("0.2")}
+    # two parameter points: the shipped defaults, and one that differs from every in-class default member value (an object
+    # whose constructor drops or mis-routes a parameter keeps a default and is only visible away from the defaults)
+    PARAM_POINTS = [{"Rmax": mp.mpf("1.3"), "p_kappa_eps": mp.mpf("0.3"), "p_delta_e": mp.mpf("0.2")},
+                    {"Rmax": mp.mpf("1.17"), "p_kappa_eps": mp.mpf("0.23"), "p_delta_e": mp.mpf("0.31")}]
     src_classes = sorted(c for c in prog.classes if c.count("_") == 2 and "_Boundary_" not in c and c.split("_")[2] in GEOS and (c + "::rhs_f") in prog.functions)
     pick = src_classes  # all 66 classes: the comparison takes about half a minute
     for c in pick:
@@ -232,23 +235,24 @@ def main(tier):
         except cas.Timeout:
             ck.undecide("R-C19-5", c, "symbolic L(u) too large")
             continue
-        fields_m = construct(prog, c, [vals["Rmax"]] if n == 1 else [vals["Rmax"], vals["p_kappa_eps"], vals["p_delta_e"]], M)
         worst = mp.mpf(0)
         wpt = None
-        for _ in range(5):
-            rv = mp.mpf(rnd.randint(100, 1200)) / 1000
-            tv = mp.mpf(rnd.randint(1, 6200)) / 1000
-            lhs = cas.evaluate(prog.fn(c + "::rhs_f"), M, {"r": rv, "theta": tv, "sin_theta": mp.sin(tv), "cos_theta": mp.cos(tv)}, fields_m)
-            rhs = f_L(rv, tv, vals["Rmax"], vals["p_kappa_eps"], vals["p_delta_e"], mp.mpf("0.66"))
-            rel = abs(lhs - rhs) / (abs(rhs) + mp.mpf("1e-30"))
-            if rel > worst:
-                worst, wpt = rel, (rv, tv, lhs, rhs)
+        for vals in PARAM_POINTS:
+            fields_m = construct(prog, c, [vals["Rmax"]] if n == 1 else [vals["Rmax"], vals["p_kappa_eps"], vals["p_delta_e"]], M)
+            for _ in range(5):
+                rv = vals["Rmax"] * mp.mpf(rnd.randint(80, 920)) / 1000
+                tv = mp.mpf(rnd.randint(1, 6200)) / 1000
+                lhs = cas.evaluate(prog.fn(c + "::rhs_f"), M, {"r": rv, "theta": tv, "sin_theta": mp.sin(tv), "cos_theta": mp.cos(tv)}, fields_m)
+                rhs = f_L(rv, tv, vals["Rmax"], vals["p_kappa_eps"], vals["p_delta_e"], mp.mpf("0.66"))
+                rel = abs(lhs - rhs) / (abs(rhs) + mp.mpf("1e-30"))
+                if rel > worst:
+                    worst, wpt = rel, (rv, tv, lhs, rhs, vals)
         if worst < mp.mpf("1e-7"):
-            ck.ok("R-C19-5", c, sample={"source term": c, "max relative deviation from L(u) at 5 points": mp.nstr(worst, 3)})
+            ck.ok("R-C19-5", c, sample={"source term": c, "max relative deviation from L(u) at 5 points x 2 parameter sets": mp.nstr(worst, 3)})
         else:
             ck.violation("R-C19-5", c, ir.locstr(prog.fn(c + "::rhs_f")),
-                         "%s::rhs_f deviates from -div(alpha grad u)+beta u by a relative %s at (r,theta)=(%s,%s): rhs_f=%s, L(u)=%s" % (
-                             c, mp.nstr(worst, 5), mp.nstr(wpt[0], 5), mp.nstr(wpt[1], 5), mp.nstr(wpt[2], 12), mp.nstr(wpt[3], 12)))
+                         "%s::rhs_f deviates from -div(alpha grad u)+beta u by a relative %s at (r,theta)=(%s,%s) with constructor arguments (Rmax, 2nd, 3rd)=(%s,%s,%s): rhs_f=%s, L(u)=%s" % (
+                             c, mp.nstr(worst, 5), mp.nstr(wpt[0], 5), mp.nstr(wpt[1], 5), mp.nstr(wpt[4]["Rmax"], 4), mp.nstr(wpt[4]["p_kappa_eps"], 4), mp.nstr(wpt[4]["p_delta_e"], 4), mp.nstr(wpt[2], 12), mp.nstr(wpt[3], 12)))
     ck.extra["undecided_is_broken"] = False
     ck.extra["source_terms_total"] = len(src_classes)
     ck.extra["source_terms_checked"] = len(pick)
